@@ -64,7 +64,7 @@ func newC08Sys(lazy, limit1 bool) *c08Sys {
 	return s
 }
 
-func (s *c08Sys) NumEvents() int          { return len(s.events) }
+func (s *c08Sys) NumEvents() int { return len(s.events) }
 func (s *c08Sys) Enabled(ev int) bool {
 	e := s.events[ev]
 	last := len(s.st.Journal) - s.opsBefore
